@@ -632,6 +632,9 @@ class Fn:
     def local_name(self, l):
         return self.locals[l].get("name")
 
+    def locals_named(self, name):
+        return [i for i, l in enumerate(self.locals) if l.get("name") == name]
+
     def local_ty(self, l):
         return self.locals[l]["ty"]
 
